@@ -6,9 +6,12 @@ TARGETS = ["Base/Corr.vo", "C12/Spec.vo", "C12/ModelS.vo", "C12/ModelM.vo", "C12
            "C12/ProofsSW.vo", "C12/ProofsSWExample.vo", "C12/ProofsM.vo", "C12/ProofsV.vo", "C12/ProofsH.vo", "C12/Corr.vo", "C12/CorrZ.vo",
            "C12/CorrH.vo", "C12/ModelId.vo", "C12/CorrI.vo", "C12/ProofsId.vo",
            "C12/ModelJ.vo", "C12/ProofsJ.vo", "C12/ProofsRefuted3.vo", "C12/CorrJ.vo",
-           "C12/ModelConv.vo", "C12/ProofsConv.vo", "C12/ModelIt.vo", "C12/ProofsIt.vo", "C12/CorrA.vo", "C12/Props.vo"]
-PROPS = ["C12/Props.v"]
-STREAMS = [("scases", "S"), ("jcases", "J"), ("ccases", "C"), ("icases", "I"), ("mcases", "M"), ("vcases", "V"), ("ecases", "E"), ("hcases", "H")]
+           "C12/ModelConv.vo", "C12/ProofsConv.vo", "C12/ModelIt.vo", "C12/ProofsIt.vo", "C12/CorrA.vo", "C12/Props.vo",
+           "C12/ModelArgs.vo", "C12/ProofsArgs.vo", "C12/GenArgs.vo", "C12/ProofsArgsRepo.vo", "C12/CorrO.vo",
+           "C12/ModelIS.vo", "C12/ProofsIS.vo", "C12/GenInSitu.vo", "C12/ProofsISRepo.vo", "C12/PropsArgs.vo"]
+PROPS = ["C12/Props.v", "C12/PropsArgs.v"]
+STREAMS = [("scases", "S"), ("jcases", "J"), ("ccases", "C"), ("icases", "I"), ("mcases", "M"), ("vcases", "V"), ("ecases", "E"), ("hcases", "H"),
+           ("ocases", "O")]
 PARTIAL = (
     "Proved in Coq, for ALL carriers / register files / heaps / histories, about the models coq/C12/ModelS.v (scalars and dense "
     "vectors of magic scalars as object ids over C01's register file), coq/C12/ModelM.v (dense matrix handles over C10's storage "
@@ -69,6 +72,35 @@ PARTIAL = (
     "clone methods of each iterator type, every live iterator observed after every step. NOT in ModelIt: Joint3 iterators and the "
     "underscore variants (not clonable in the library), the SparseConst vector iterators, containers written while iterators live "
     "(C11's stale-iterator model). "
+    "(10, round 6) OPTION LISTS: coq/C12/ModelArgs.v models Go's slice semantics (heap of arrays, headers (array, offset, len, cap), "
+    "append writes behind len when there is room and reallocates otherwise, reslicing keeps the array, f(x, v...) passes v's header, "
+    "f(x, e1..en) a new array) and a function as the list of things its body does with []interface{} variables; an execution is ANY "
+    "sequence of the statements, calls nested to any depth. Proved for EVERY program accepted by the static check args_safe (taint of "
+    "(function, variable) pairs from the exported entry points through aliases / reslices / spread calls; no append, store or escape "
+    "through a tainted variable), EVERY slice header the caller passes (any len, cap, offset) and EVERY execution: no cell of any array "
+    "that existed at entry is written, so the caller's len elements and the whole capacity window read as before and a second call with "
+    "the same slice sees the same options (accepted_program_writes_no_existing_array / _keeps_callers_option_list); the in-place append "
+    "and the in-place filter idioms are rejected and refuted with concrete executions. The program of all 36 functions of "
+    "/repo/algorithm with an option-list parameter (27 exported entry points) is REGENERATED from the Go source by go2coq_c12 (go/ast) on "
+    "every run and args_safe is evaluated on it by vm_compute (repo_entry_points_keep_callers_option_list); a rejected statement is "
+    "reported with its source position. Stream O ties it: every one of the 27 entry points x its option combinations in rotation, the "
+    "options in a caller-held slice with 1-3 sentinel cells behind len (every third case with one more option the entry point does not "
+    "consume), shallow identity of every cell of the window before/after, result compared bit-exactly with a call with a literal list, "
+    "and for plain-value option lists a second call with the SAME slice. NOT in ModelArgs: what the entry points do with the option "
+    "VALUES (pointer-valued options such as saga's proximal operator: stream E / known finding), control flow (over-approximated), "
+    "option lists stored in struct fields or captured by closures (treated as escape = may write). "
+    "(11, round 6) STORES INTO THE InSitu STRUCT: coq/C12/ModelIS.v models the struct as field -> set of referenced object ids and every "
+    "assignment inSitu.<field> = <expr> by the class of its right-hand side (new object / nil / something the struct references already / "
+    "a parameter, option value or view of one / unknown); proved for every table without parameter- or unknown-class stores and EVERY "
+    "sequence of the stores: the struct references afterwards only what it referenced at entry or objects allocated since "
+    "(accepted_stores_retain_no_callers_object = frame condition F2 of (5) for the stores as coded); the `inSitu.A = a` regression is "
+    "rejected and refuted. The table of all 100 such stores of /repo/algorithm (structs that may be the caller's; a struct built locally "
+    "and never re-assigned is skipped) is REGENERATED by go2coq_c12 on every run (locals classified flow-insensitively, views "
+    "Slice/T/Row/.. inherit the class of their receiver) and decided by vm_compute; a rejected store is reported with its source "
+    "position and stream H supplies the failing call sequence. NOT in ModelIS: references that reach the struct other than by an "
+    "assignment to a field of a variable named inSitu (the translator fails the run if a variable of type InSitu has another name), "
+    "e.g. through a method of a buffer that keeps its argument (covered by stream H's storage-identity walk at run time); F1 (what the "
+    "bodies WRITE) remains runtime evidence. "
     "NOT proved / partial: the entry-point theorems are about the generic wrapper with an abstract body (body_frames / body_ok); that each "
     "concrete algorithm of /repo/algorithm is such a body is NOT proved — for all 29 Run* entry points x 1155 option combinations "
     "and the 42 distribution constructors the harness's before/after snapshot comparison (evaluated in Coq, bit-exact) is the "
@@ -126,6 +158,99 @@ def is_known(finding):
     return None
 
 
+def translate_args(ctx):
+    """Round 6: regenerate the option-list program (ModelArgs.prog) from vlib.REPO with go2coq_c12.
+    Returns (report, text) or None."""
+    tool, tlog = vlib.build_tool("go2coq_c12", "go2coq_c12")
+    if tool is None:
+        ctx.oblige(1, 0)
+        ctx.violation({"obligation": "build of go2coq_c12", "log": tlog[-1500:]}, False, "the option-list translator does not build")
+        return None
+    gen = os.path.join(ctx.dir, "GenArgs.v")
+    rep = os.path.join(ctx.dir, "args_report.json")
+    geni = os.path.join(ctx.dir, "GenInSitu.v")
+    rc, out = vlib.sh([tool, "-repo", vlib.REPO, "-out", gen, "-insitu", geni, "-report", rep], timeout=120, env=vlib.go_env())
+    if rc != 0 or not os.path.exists(gen) or not os.path.exists(rep) or not os.path.exists(geni):
+        ctx.oblige(1, 0)
+        ctx.violation({"obligation": "go2coq_c12 run", "log": out[-1500:]}, False,
+                      "tie lost: the option-list translator failed on the library source")
+        return None
+    report = json.load(open(rep))
+    ctx.cov.setdefault("translator", {})["go2coq_c12"] = {
+        "files": report["files"], "functions": len(report["functions"]), "roots": report["roots"],
+        "statements": report["statements"], "insitu_stores": len(report.get("insitu_stores") or []),
+        "unsupported": report["unsupported"]}
+    ctx.oblige(1, 1 if report.get("ok") else 0)
+    if not report.get("ok"):
+        ctx.violation({"obligation": "translation of the option-list uses (go2coq_c12)", "unsupported": report["unsupported"]}, False,
+                      "tie lost: a use of an option list is outside the translated grammar: %s" % "; ".join(report["unsupported"] or [])[:600])
+    new, newi = open(gen).read(), open(geni).read()
+    changed = False
+    for name, text in (("GenArgs.v", new), ("GenInSitu.v", newi)):
+        committed_path = os.path.join(vlib.COQ, "C12", name)
+        committed = open(committed_path).read() if os.path.exists(committed_path) else ""
+        if text != committed:
+            changed = True
+            if os.path.abspath(vlib.REPO) == "/repo":
+                open(committed_path, "w").write(text)     # the regenerated program is the model from now on
+                ctx.log("%s regenerated from %s differs from the previous one: proofs are re-checked against it" % (name, vlib.REPO))
+            else:
+                ctx.log("%s regenerated from %s differs from the committed one (redirected run: decided by the shards below)" % (name, vlib.REPO))
+    ctx.cov["gen_args_changed"] = changed
+    ctx.args_insitu_text = newi
+    ctx.args_roots = report["roots"]
+    return report, new
+
+
+def eval_args(ctx, report, new):
+    """Decide the regenerated program in Coq (independent of the committed copy); needs ProofsArgs.vo."""
+    body = new.split("Import ListNotations.", 1)[1]
+    shard = os.path.join(ctx.dir, "args_regen_0.v")
+    open(shard, "w").write(
+        "From Coq Require Import List Arith.\nFrom ADV Require Import C12.ModelArgs C12.ProofsArgs.\nImport ListNotations.\n" + body +
+        "\n(* accepted: the frame theorem applies to the regenerated program *)\n"
+        "Definition regenerated_frame (H : args_safe repo_prog repo_roots = true) := safe_program_keeps_option_list repo_prog repo_roots H.\n"
+        "Definition M : list nat := Eval vm_compute in\n"
+        "  (if args_safe repo_prog repo_roots then [] else flat_map (fun p => [fst p; snd p]) (args_unsafe_sites repo_prog repo_roots) ++ [4444]).\n"
+        "Print M.\n")
+    res = vlib.eval_shards([shard])[0]
+    ctx.oblige(1, 1 if res["ok"] else 0)
+    if res["mism"] is None:
+        ctx.violation({"obligation": "evaluation of args_safe on the regenerated program", "coqc_error": res["error"]}, False,
+                      "the regenerated option-list program did not evaluate")
+        return []
+    sites = []
+    flat = res["mism"][:-1]
+    for f, i in zip(flat[0::2], flat[1::2]):
+        fn = report["functions"][f] if f < len(report["functions"]) else None
+        st = fn["stmts"][i] if fn and i < len(fn["stmts"]) else {}
+        sites.append({"function": fn["name"] if fn else f, "stmt": st.get("coq"), "pos": st.get("pos"), "text": st.get("text")})
+    if res["mism"] and not sites:
+        sites.append({"function": "?", "stmt": "roots not tainted", "pos": None, "text": None})
+    ctx.log("option lists: %d functions (%d entry points), %d statements regenerated; args_safe %s" % (
+        len(report["functions"]), len(report["roots"]), report["statements"], "accepted" if not sites else "REJECTS %s" % sites))
+    # stores into InSitu structs
+    bodyi = ctx.args_insitu_text.split("Import ListNotations.", 1)[1]
+    shardi = os.path.join(ctx.dir, "insitu_regen_0.v")
+    open(shardi, "w").write(
+        "From Coq Require Import List Arith.\nFrom ADV Require Import C12.ModelIS C12.ProofsIS.\nImport ListNotations.\n" + bodyi +
+        "\nDefinition regenerated_f2 (H : stores_ok repo_insitu_stores = true) := accepted_stores_retain_nothing repo_insitu_stores H.\n"
+        "Definition M : list nat := Eval vm_compute in (bad_stores_from 0 repo_insitu_stores).\nPrint M.\n")
+    resi = vlib.eval_shards([shardi])[0]
+    ctx.oblige(1, 1 if resi["ok"] else 0)
+    stores = report.get("insitu_stores") or []
+    if resi["mism"] is None:
+        ctx.violation({"obligation": "evaluation of stores_ok on the regenerated store table", "coqc_error": resi["error"]}, False,
+                      "the regenerated table of stores into InSitu structs did not evaluate")
+    else:
+        for i in resi["mism"]:
+            st = stores[i] if i < len(stores) else {}
+            sites.append({"function": st.get("func"), "stmt": "store %s" % st.get("class"), "pos": st.get("pos"), "text": st.get("text"),
+                          "kind": "insitu"})
+        ctx.log("InSitu stores: %d regenerated; stores_ok %s" % (len(stores), "accepted" if not resi["mism"] else "REJECTS %s" % [s for s in sites if s.get("kind") == "insitu"]))
+    return sites
+
+
 def corr(ctx, binary, n):
     os.environ["C12_REPO"] = vlib.REPO          # stream C enumerates the library's As* functions from its source (go/ast)
     rc, out = vlib.run_harness(ctx, binary, n)
@@ -159,6 +284,15 @@ def corr(ctx, binary, n):
                 b.append(cases[k * meta["per_shard"] + i])
         bad[tag] = b
         ctx.log("stream %s: %d cases in %d shards, %d flagged by Coq" % (tag, len(cases), len(res), len(b)))
+        if tag == "O":
+            ran = set((meta.get("extra") or {}).get("option_list_entry_points") or [])   # entry points whose driver hands over a held slice
+            roots = getattr(ctx, "args_roots", None) or []
+            unc = [r for r in roots if r not in ran]
+            ctx.oblige(1, 0 if unc else 1)
+            if unc:
+                ctx.violation({"obligation": "C12 stream O: every exported function of algorithm/* with an option list is exercised",
+                               "uncovered": unc}, False,
+                              "tie lost: entry points with an option list that the option-list stream does not reach: %s" % ", ".join(unc))
         if tag == "C":
             unc = (meta.get("extra") or {}).get("conversion_functions_uncovered") or []
             ctx.oblige(1, 0 if unc else 1)
@@ -192,13 +326,19 @@ def run(ctx):
         "streams C/I (round 5): harness/c12/entry/footprint.go's reflection walk as the identity of the storage a container reaches; the keys "
         "of the unexported map `values` as the stored positions of a sparse container; reflect.MethodByName for the iterator methods; the "
         "rule which To-dense conversions walk the source's iterator (AsDense<plain>Vector, AsSparseConst*) is read off the source by hand",
+        "option lists (round 6): go2coq_c12 (~450 lines of Go, go/parser + go/ast only) is trusted for the SHAPE of the statement lists "
+        "(which uses of an []interface{} variable exist; anything it does not recognise becomes SEscape or fails the run); stream O's "
+        "reflect-based shallow key of an option value as its identity",
         "stream H: harness/c12/entry/footprint.go (reflection walk: every pointer target, backing array up to capacity and map header "
         "reachable from an object, library types only) as the definition of storage identity; SHA-256 digests of snapshots"]
     ctx.cov["partial"] = PARTIAL
+    tr = translate_args(ctx)
     ok, failures = vlib.proof_stage(ctx, TARGETS, PROPS)
+    arg_sites = eval_args(ctx, *tr) if tr else []
     thms = vlib.theorem_names(os.path.join(vlib.COQ, "C12/Props.v"))
+    thms_args = vlib.theorem_names(os.path.join(vlib.COQ, "C12/PropsArgs.v"))
     if ok:
-        ctx.cov["print_assumptions"] = vlib.print_assumptions("C12", [("C12.Props", thms)], ctx.dir)
+        ctx.cov["print_assumptions"] = vlib.print_assumptions("C12", [("C12.Props", thms), ("C12.PropsArgs", thms_args)], ctx.dir)
     binary, blog = vlib.build_harness("c12")
     if binary is None:
         ctx.violation({"obligation": "build of harness/c12 against the library", "log": blog[-3000:]}, False,
@@ -206,7 +346,7 @@ def run(ctx):
         return
     n = 160 if ctx.tier == "quick" else 1600
     bad = corr(ctx, binary, n)
-    handed = [c for tag in ("C", "I", "J", "H", "S", "M", "V", "E") for c in bad.get(tag, [])]
+    handed = [c for tag in ("O", "C", "I", "J", "H", "S", "M", "V", "E") for c in bad.get(tag, [])]
     finds = hunt(ctx, binary, handed)
     unknown = []
     for f in finds:
@@ -223,7 +363,8 @@ def run(ctx):
     model_bad = [c for tag in ("C", "I", "S", "J", "M", "V") for c in bad.get(tag, [])]
     for f in unknown[:5]:
         ctx.violation({"case": f["case"], "failure": f["failure"], "site": f["site"], "at": f.get("at"),
-                       "broken": [x["target"] for x in failures] + (["correspondence C12"] if model_bad else [])}, True,
+                       "broken": [x["target"] for x in failures] + (["correspondence C12"] if model_bad else []) +
+                                 (["%s: %s %s" % ("ModelIS.stores_ok" if s.get("kind") == "insitu" else "ModelArgs.args_safe", s["function"], s["pos"]) for s in arg_sites])}, True,
                       "copy/frame property violated on the implementation (%s): %s" % (f["site"], f["failure"]))
     if not unknown:
         for c in e_unknown[:3]:
@@ -233,6 +374,21 @@ def run(ctx):
             ctx.violation({"case": c, "obligation": "C12.CorrH.hcheck"}, True,
                           "sequence of %s calls sharing one InSitu struct / estimator (%s): retained reference to %s, later change of %s" % (
                               c.get("entry"), c.get("opts"), c.get("retained"), c.get("changed")))
+        for c in bad.get("O", [])[:3]:
+            ctx.violation({"case": c, "obligation": "C12.CorrO.ocheck"}, True,
+                          "entry point %s (%s): the caller's option list / the behaviour of a call with the same slice changed: %s" % (
+                              c.get("entry"), c.get("opts"), c.get("changed")))
+        a_sites = [s for s in arg_sites if s.get("kind") != "insitu"]
+        i_sites = [s for s in arg_sites if s.get("kind") == "insitu"]
+        if a_sites and not bad.get("O"):
+            ctx.violation({"obligation": "ModelArgs.args_safe on the program regenerated from the source", "sites": a_sites}, False,
+                          "an entry point writes through its option list (%s), but no call that changes the caller's slice was found" % (
+                              "; ".join("%s %s: %s" % (s["function"], s["pos"], s["text"]) for s in a_sites[:4])))
+        if i_sites and not bad.get("H"):
+            ctx.violation({"obligation": "ModelIS.stores_ok on the store table regenerated from the source", "sites": i_sites}, False,
+                          "an entry point stores a reference to a caller's object into the InSitu struct (%s), but no call sequence in "
+                          "which an earlier input changes was found" % (
+                              "; ".join("%s %s: %s" % (s["function"], s["pos"], s["text"]) for s in i_sites[:4])))
         for f in failures:
             ctx.violation({"obligation": f["target"], "lemma": f["lemma"], "errors": f["errors"]}, False,
                           "proof obligation no longer checks: %s %s" % (f["target"], f["lemma"] or ""))
